@@ -105,6 +105,7 @@ pub struct Gen {
     arch_sinks: Vec<(usize, usize)>, // (region, integer signal) sinks for concurrent code
     pub site_stats: Vec<String>,
     split: bool,
+    nested_types: Vec<(usize, [usize; 4])>, // per region: word array, matrix, record with unconstrained element, its element
 }
 
 const INT_SITES_CONC: &[&str] = &[
@@ -124,12 +125,12 @@ const INT_SITES_SEQ: &[&str] = &[
 const INT_SITES_DECL: &[&str] = &[
     "default_value", "subtype_range", "subtype_index_constraint", "alias_name", "attr_spec_entity", "param_default",
     "array_index_range", "type_range", "subtype_decl_range", "signal_default", "variable_default", "comp_generic_default",
-    "record_elem_constraint",
+    "record_elem_constraint", "constraint_grammar", "constraint_grammar", "constraint_grammar",
 ];
 
 impl Gen {
     fn new(seed: u64, gid: usize) -> Gen {
-        Gen { rng: Rng::new(seed), gid, ents: vec![], regions: vec![], targets: vec![], arch_sinks: vec![], site_stats: vec![], split: false }
+        Gen { rng: Rng::new(seed), gid, ents: vec![], regions: vec![], targets: vec![], arch_sinks: vec![], site_stats: vec![], split: false, nested_types: vec![] }
     }
     fn ent(&mut self, prefix: &str, kind: &'static str, parent: Option<usize>, declby: Option<usize>, elig: bool) -> usize {
         let id = self.ents.len();
@@ -742,7 +743,164 @@ impl Gen {
         false
     }
 
+    /// array-of-array types with unconstrained elements and a record with an unconstrained element (once per region)
+    fn nested_types(&mut self, r: usize) -> [usize; 4] {
+        for (reg, t) in &self.nested_types {
+            if *reg == r {
+                return *t;
+            }
+        }
+        let owner0 = self.regions[r].owner;
+        let owner = if owner0 == usize::MAX { None } else { Some(owner0) };
+        let el = self.elig_in(r);
+        let ind = if matches!(self.regions[r].kind, Rk::Process | Rk::Subprog) { "    " } else { "  " };
+        let wa = self.ent("wa", "type", owner, None, el);
+        let mt = self.ent("mt", "type", owner, None, el);
+        let rc = self.ent("urc", "type", owner, None, el);
+        let rf = self.ent("uf", "elem", Some(rc), None, false);
+        let txt = format!(
+            "{i}type {} is array (natural range <>) of bit_vector;\n{i}type {} is array (natural range <>) of {};\n{i}type {} is record\n{i}  {} : bit_vector;\n{i}end record;\n",
+            self.d(wa),
+            self.d(mt),
+            self.r(wa, "array_elem_subtype"),
+            self.d(rc),
+            self.d(rf),
+            i = ind
+        );
+        self.decl(r, txt);
+        self.nested_types.push((r, [wa, mt, rc, rf]));
+        [wa, mt, rc, rf]
+    }
+
+    /// one subtype indication form x one carrier; the expression under test sits inside the constraint
+    fn constraint_site(&mut self, r: usize, e: &dyn Fn(&Gen, &str) -> String) -> bool {
+        let owner0 = self.regions[r].owner;
+        let owner = if owner0 == usize::MAX { None } else { Some(owner0) };
+        let el = self.elig_in(r);
+        let kind = self.regions[r].kind;
+        let ind = if matches!(kind, Rk::Process | Rk::Subprog) { "    " } else { "  " };
+        const FORMS: &[&str] = &[
+            "index", "open_elem", "index_elem", "outer_index", "index_open_elem", "open_open_elem", "open_index_open", "record_elem",
+            "range", "range_attr", "index_attr_range",
+        ];
+        let form = *self.rng.pick(FORMS);
+        let mut carriers: Vec<&str> = vec!["subtype", "param", "array_elem", "record_elem", "access"];
+        if self.allows_signals(r) {
+            carriers.push("signal");
+        }
+        if self.allows_variables(r) {
+            carriers.push("variable");
+            carriers.push("allocator");
+        }
+        if matches!(kind, Rk::Arch | Rk::Block | Rk::Generate | Rk::PkgHead) {
+            carriers.push("comp_port");
+            carriers.push("comp_generic");
+        }
+        if form == "index" {
+            carriers.push("alias_subtype");
+        }
+        let carrier = *self.rng.pick(&carriers);
+        if kind == Rk::PkgHead && carrier == "param" {
+            return false;
+        }
+        let site = format!("cstr_{}_in_{}", form, carrier);
+        let [wa, mt, rc, rf] = self.nested_types(r);
+        let x = e(self, &site);
+        let m = "subtype_mark_constrained";
+        let indication = match form {
+            "index" => format!("bit_vector({} downto 0)", x),
+            "open_elem" => format!("{}(open)({} downto 0)", self.r(wa, m), x),
+            "index_elem" => format!("{}(0 to 1)({} downto 0)", self.r(wa, m), x),
+            "outer_index" => format!("{}(0 to {})(7 downto 0)", self.r(wa, m), x),
+            "index_open_elem" => format!("{}(0 to 1)(open)({} downto 0)", self.r(mt, m), x),
+            "open_open_elem" => format!("{}(open)(open)({} downto 0)", self.r(mt, m), x),
+            "open_index_open" => format!("{}(open)(0 to {})(open)", self.r(mt, m), x),
+            "record_elem" => format!("{}({}({} downto 0))", self.r(rc, m), self.raw(rf), x),
+            "range" => format!("integer range 0 to {}", x),
+            "range_attr" => format!("integer range natural'low to {}", x),
+            _ => format!("bit_vector({} downto natural'low)", x),
+        };
+        let txt = match carrier {
+            "subtype" => {
+                let t = self.ent("cs", "type", owner, None, el);
+                format!("{}subtype {} is {};\n", ind, self.d(t), indication)
+            }
+            "signal" => {
+                let o = self.ent("cso", "obj", owner, None, el);
+                format!("{}signal {} : {};\n", ind, self.d(o), indication)
+            }
+            "variable" => {
+                let o = self.ent("cso", "obj", owner, None, el);
+                format!("{}variable {} : {};\n", ind, self.d(o), indication)
+            }
+            "param" => {
+                let p = self.ent("csp", "over", owner, None, el);
+                let v = self.ent("w", "iobj", Some(p), None, true);
+                format!("{}procedure {} ({} : in {}) is\n{}begin\n{}end procedure;\n", ind, self.d(p), self.d(v), indication, ind, ind)
+            }
+            "comp_port" | "comp_generic" => {
+                let c = self.ent("csc", "comp", owner, None, el);
+                let p = self.ent("w", "iobj", Some(c), None, false);
+                if carrier == "comp_port" {
+                    format!("{}component {} is\n{}  port ({} : in {});\n{}end component;\n", ind, self.d(c), ind, self.d(p), indication, ind)
+                } else {
+                    format!("{}component {} is\n{}  generic ({} : {});\n{}end component;\n", ind, self.d(c), ind, self.d(p), indication, ind)
+                }
+            }
+            "array_elem" => {
+                let t = self.ent("cs", "type", owner, None, el);
+                format!("{}type {} is array (0 to 1) of {};\n", ind, self.d(t), indication)
+            }
+            "record_elem" => {
+                let t = self.ent("cs", "type", owner, None, el);
+                let f = self.ent("g", "elem", Some(t), None, false);
+                format!("{}type {} is record\n{}  {} : {};\n{}end record;\n", ind, self.d(t), ind, self.d(f), indication, ind)
+            }
+            "access" => {
+                let t = self.ent("cs", "type", owner, None, el);
+                format!("{}type {} is access {};\n", ind, self.d(t), indication)
+            }
+            "allocator" => {
+                let t = self.ent("csa", "type", owner, None, el);
+                let v = self.ent("csv", "obj", owner, None, el);
+                let base = match form {
+                    "index" | "index_attr_range" => "bit_vector".to_string(),
+                    "range" | "range_attr" => "integer".to_string(),
+                    "record_elem" => self.r(rc, "access_subtype"),
+                    "open_elem" | "index_elem" | "outer_index" => self.r(wa, "access_subtype"),
+                    _ => self.r(mt, "access_subtype"),
+                };
+                let decl = format!("{}type {} is access {};\n{}variable {} : {};\n", ind, self.d(t), base, ind, self.d(v), self.r(t, "subtype_mark_variable"));
+                self.decl(r, decl);
+                let st = format!("    {} := new {};\n", self.r(v, "sink_target"), indication);
+                self.body(r, st);
+                self.site_stats.push(site);
+                return true;
+            }
+            _ => {
+                // alias with a subtype indication
+                let c = self.ent("csb", "obj", owner, None, el);
+                let a = self.ent("csal", "other", owner, None, el);
+                format!(
+                    "{}constant {} : bit_vector(7 downto 0) := (others => '0');\n{}alias {} : {} is {};\n",
+                    ind,
+                    self.d(c),
+                    ind,
+                    self.d(a),
+                    indication,
+                    self.r(c, "alias_name")
+                )
+            }
+        };
+        self.decl(r, txt);
+        self.site_stats.push(site);
+        true
+    }
+
     fn int_site_decl(&mut self, r: usize, site: &str, e: &dyn Fn(&Gen, &str) -> String, stat: bool) -> bool {
+        if site == "constraint_grammar" {
+            return self.constraint_site(r, e);
+        }
         let owner0 = self.regions[r].owner;
         let owner = if owner0 == usize::MAX { None } else { Some(owner0) };
         let el = self.elig_in(r);
@@ -961,5 +1119,15 @@ pub fn gen_project(seed: u64, pi: usize, gpp: usize) -> Value {
             groups.push(t);
         }
     }
-    json!({"id": format!("p{}", pi), "groups": groups, "flip": pi % 3 == 0, "layered": pi % 2 == 1})
+    // configured library names vary in letter case and contain digits / underscores (every fourth project keeps the plain ones)
+    let pools: [&[&str]; 3] = [
+        &["lib", "MyLib", "UTIL_LIB", "Lib_1", "cOre9"],
+        &["tp", "ThirdParty", "TP_LIB", "vendor_2X", "Ieee_Like"],
+        &["lib2", "Lib2", "SECOND_lib", "other_Lib_3", "L"],
+    ];
+    let mut pj = json!({"id": format!("p{}", pi), "groups": groups, "flip": pi % 3 == 0, "layered": pi % 2 == 1});
+    if pi % 4 != 3 {
+        pj["libnames"] = json!({"lib": *rng.pick(pools[0]), "tp": *rng.pick(pools[1]), "lib2": *rng.pick(pools[2])});
+    }
+    pj
 }
